@@ -60,7 +60,7 @@ const (
 	KDelay
 	KCombine
 	KLoop
-	KIte // Delay(func() Seq { if C() { return A }; return B })
+	KIte   // Delay(func() Seq { if C() { return A }; return B })
 	KTwice // v := A; Combine(v, v): ONE Seq value run twice, with different continuations
 )
 
